@@ -78,10 +78,15 @@ func scC16Reverse(w *World, a Args, rng *rand.Rand) error {
 		}
 		tok := 190
 		w.Plan(tok, &Plan{WaitCtx: lose == "before"})
+		if lose == "before" || lose == "queued" {
+			w.ArmCause() // the handler's patience runs from the moment the connection is taken away, not from its start
+			defer w.MarkCause()
+		}
 		switch lose {
 		case "before": // the handler only calls back after the connection is gone
 			go victim.CallT("callbackafter", tok, patience(3*time.Second))
 			w.WaitRunning(tok, time.Second)
+			w.MarkCause()
 			w.Rec.Emit("WireFault", "conn", 1, "fault", "kill/fin", "dir", "both", "frame", 0)
 			vpc.Kill("fin")
 		case "queued": // reverse calls queue up behind a large one the client is slow to read; then the connection is reset
@@ -95,6 +100,7 @@ func scC16Reverse(w *World, a Args, rng *rand.Rand) error {
 			time.Sleep(400 * time.Millisecond) // the large reverse request has been rendered and is stuck in the write by now
 			w.Release(tok)                     // the small reverse calls are issued
 			time.Sleep(100 * time.Millisecond)
+			w.MarkCause()
 			w.Rec.Emit("WireFault", "conn", 1, "fault", "kill/rst", "dir", "both", "frame", 0)
 			vpc.Kill("rst")
 			time.Sleep(100 * time.Millisecond)
